@@ -2294,6 +2294,9 @@ def run(ctx):
         r11j(ctx)
     if ctx.want("R13h"):
         c13.r13h(ctx)
+    if ctx.want("R13e"):
+        # splitting / cancelling the fraction parts is what the factorisation removes integrals and brackets with
+        c13.r13e(ctx)
     if ctx.want("R13d"):
         c13.r13d(ctx)
     for r, f in (("R11a", r11a), ("R11b", r11b), ("R11c", r11c), ("R11d", r11d), ("R11e", r11e), ("R11f", r11f)):
